@@ -2,7 +2,10 @@ module verif/mc
 
 go 1.24.0
 
-require github.com/itchyny/gojq v0.0.0
+require (
+	github.com/itchyny/go-yaml v0.0.0-20251001235044-fca9a0999f15
+	github.com/itchyny/gojq v0.0.0
+)
 
 require github.com/itchyny/timefmt-go v0.1.8 // indirect
 
